@@ -2,7 +2,7 @@
    Statements about the RN instance of Model/Pbox.v (frechet_op), for any number of steps n,
    every selection of one point per focal step and every permutation coupling. *)
 From Coq Require Import Reals Lra List Permutation.
-From PUN Require Import Base.Num Base.Sort Model.Interval Model.Pbox Proofs.ListR Proofs.PboxWF Proofs.Frechet Proofs.Tight Proofs.Encl.
+From PUN Require Import Base.Num Base.Sort Model.Interval Model.Pbox Proofs.ListR Proofs.PboxWF Proofs.Frechet Proofs.Tight Proofs.Encl Model.ArrayOps Gen.GenKernels Proofs.Kernels.
 From Coq Require Import Lia.
 Import ListNotations.
 Open Scope R_scope.
@@ -122,6 +122,13 @@ Theorem C02_encloses_independent (op : R -> R -> R) (D : R -> Prop) n XL XR YL Y
   nth (i * (n + 1)) (snd (independent_op RN op XL XR YL YR)) 0 <= nth i (snd (frechet_op RN op XL XR YL YR)) 0.
 Proof. intros. eapply (frechet_encloses_independent op D); eassumption. Qed.
 
+(* TIE: the kernel these theorems are about is the one translated from pba/operation.py on every run (Gen/GenKernels.v):
+   gather / arange index arithmetic of the source = the firstn / skipn / rev form of the model, for arrays of one length *)
+Theorem C02_kernel_is_translated (op : R -> R -> R) (XL XR YL YR : list R) :
+  length XR = length XL -> length YL = length XL -> length YR = length XL ->
+  gen_frechet_op RN op XL XR YL YR = frechet_op RN op XL XR YL YR.
+Proof. exact (gen_frechet_op_is_model RN op XL XR YL YR). Qed.
+
 (* non-vacuity: a two-step instance with the swapping coupling *)
 Example C02_ex : nth 0 (fst (frechet_op RN Rplus [1; 2] [2; 3] [10; 20] [11; 21])) 0 = 11 /\
                  nth 1 (snd (frechet_op RN Rplus [1; 2] [2; 3] [10; 20] [11; 21])) 0 = 24.
@@ -144,3 +151,4 @@ Print Assumptions C02_right_attained.
 Print Assumptions C02_encloses_perfect.
 Print Assumptions C02_encloses_opposite.
 Print Assumptions C02_encloses_independent.
+Print Assumptions C02_kernel_is_translated.
